@@ -84,7 +84,7 @@ pub fn is_directed(fl: &str) -> bool {
 macro_rules! kind_items {
     (di) => {
         pub const DIRECTED: bool = true;
-        fn lists_of(n: &N) -> (Vec<Entry>, Vec<Entry>) {
+        pub fn lists_of(n: &N) -> (Vec<Entry>, Vec<Entry>) {
             (
                 n.iter_out().map(|Edge(_, v, e)| (*v.key(), e)).collect(),
                 n.iter_in().map(|Edge(u, _, e)| (*u.key(), e)).collect(),
@@ -123,7 +123,7 @@ macro_rules! kind_items {
     };
     (un) => {
         pub const DIRECTED: bool = false;
-        fn lists_of(n: &N) -> (Vec<Entry>, Vec<Entry>) {
+        pub fn lists_of(n: &N) -> (Vec<Entry>, Vec<Entry>) {
             (n.iter().map(|Edge(_, v, e)| (*v.key(), e)).collect(), vec![])
         }
         fn obs(n: &N) -> String {
@@ -304,6 +304,10 @@ macro_rules! flavour_mod {
                 let quiet_until: usize = case.split(' ').find_map(|t| t.strip_prefix("quiet=")).and_then(|x| x.parse().ok()).unwrap_or(0);
                 for (li, raw) in lines.iter().enumerate() {
                     ctx.quiet = li < quiet_until;
+                    // run-time annotations (`@order=...`, `@abs=...`) are regenerated on every execution
+                    let clean: String = raw.split(' ').filter(|x| !x.starts_with('@')).collect::<Vec<_>>().join(" ");
+                    let raw = &clean;
+                    ext.annot = None;
                     let (body, via) = match raw.split_once(" #via=") {
                         Some((b, v)) => (b, v),
                         None => (raw.as_str(), "clone"),
@@ -378,7 +382,7 @@ macro_rules! flavour_mod {
                         }));
                         r.map_err(|_| ())
                     };
-                    ctx.prog.push(raw.clone());
+                    ctx.prog.push(match &ext.annot { Some(a) => format!("{raw} {a}"), None => raw.clone() });
                     match out {
                         Ok(o) => ctx.outs.push(o),
                         Err(()) => {
